@@ -60,6 +60,28 @@ fn main() {
             }
         }
     }
+    // retrieval (long-term): a valid bundle followed by one that is NOT YET valid but expires later must not be returned
+    {
+        let (p_ok, s_ok) = mk_prekey(t - 60, t + 600);
+        let (p_early, s_early) = mk_prekey(t + 300, t + 9000);
+        let y = KeyRegistry::<usize>::init();
+        let y = KeyRegistry::add_longterm_bundle(y, 5usize, LongTermKeyBundle::new(identity.verifying_key().unwrap(), p_ok, s_ok)).expect("valid when added");
+        // the too-early bundle cannot be added through the API (it is rejected): put it into the stored state the way a
+        // deserialised registry would carry it
+        let mut v = serde_json::to_value(&y).expect("state serialises");
+        let early = serde_json::to_value(LongTermKeyBundle::new(identity.verifying_key().unwrap(), p_early, s_early)).unwrap();
+        let mut pushed = false;
+        if let Some(m) = v.get_mut("longterm_bundles").and_then(|m| m.as_object_mut()) { for (_k, list) in m.iter_mut() { if let Some(a) = list.as_array_mut() { a.push(early.clone()); pushed = true; } } }
+        if pushed { if let Ok(y2) = serde_json::from_value(v) {
+            n += 1;
+            if let Ok((_, Some(b))) = <KeyRegistry<usize> as PreKeyRegistry<usize, LongTermKeyBundle>>::key_bundle(y2, &5usize) {
+                if b.verify().is_err() && reported.insert("not-yet-valid-longterm-bundle-returned") {
+                    rp_core::report(true, "not-yet-valid-longterm-bundle-returned", json!({"stored": ["valid now, expires in 10 min", "valid from in 5 min, expires in 150 min"]}), json!({"returned_bundle_verifies": false}),
+                        &["key_registry::latest_key_bundle.ensures#returns_a_currently_valid_bundle_of_the_list", "key_registry::latest_key_bundle.loop1.invariant#latest_is_a_valid_visited_bundle", "key_registry::PreKeyRegistry@KeyRegistry::key_bundle#2.ensures#returned_bundle_currently_valid_and_authentic"]);
+                }
+            }
+        } }
+    }
     // retrieval: short-lived bundles expire while stored
     let (p1, s1) = mk_prekey(t - 60, t + 2);
     let ot_secret = SecretKey::from_bytes(rng.random_array().unwrap());
